@@ -5,7 +5,7 @@ import vlib, lclib
 def run(ctx):
     quick = ctx.tier == "quick"
     lclib.model_check(ctx, quick)
-    lclib.run(ctx, lclib.C06_WHATS, 420 if quick else 6300, 36 if quick else 50, judge="C06")
+    lclib.run(ctx, lclib.C06_WHATS, 510 if quick else 7650, 36 if quick else 50, judge="C06")
     ctx.assumptions += ["notification fairness is C05's result; quiet = no write during 3 virtual minutes",
                         "six controller configurations (transform +/- input finalizers / ignore-tearing-down; qtransform concurrency 1, 2, ignore-teardown-until)"]
 
